@@ -62,6 +62,21 @@ def lint_a_fixture_matches() -> bool:
   return len(c.bads) == 1
 
 
+def lint_b_fixture_matches() -> bool:
+  from .rules import lint
+
+  class _Ix(_FakeIndex):
+    def scope_name(self, m, node):
+      import ast
+      for f in ast.walk(m.tree):
+        if isinstance(f, ast.FunctionDef) and any(x is node for x in ast.walk(f)):
+          return m.name + ":Fixture." + f.name
+      return m.name + ":<fixture>"
+  c = _NullCtx(_Ix())
+  n = lint.vacuous_quantifier(c, [fixture_module("lint_b.py")])
+  return n == 3 and len(c.bads) == 2 and len(c.oks) == 1
+
+
 def pur_fixture_matches(ix) -> bool:
   """PUR must flag both mutations of `doc`-derived values in fixtures/source_mutation.py."""
   import ast
